@@ -43,6 +43,7 @@ type Exec struct {
 	topLets   map[string]Val
 	curTag    string
 	atTags    map[string]bool
+	counting  bool // called()/spawned() counters are in use
 	curSite   ssa.Instruction
 	curCallFrame *Frame
 	curCallArgs  []Val
@@ -626,9 +627,6 @@ func (x *Exec) frameInvariant(fr *Frame, li *loopInfo, pre *State, h *State, eff
 	if err != nil {
 		return err
 	}
-	if all {
-		return nil
-	}
 	var names []string
 	for c := range eff.comps {
 		names = append(names, c)
@@ -637,6 +635,10 @@ func (x *Exec) frameInvariant(fr *Frame, li *loopInfo, pre *State, h *State, eff
 	for _, name := range names {
 		so := eff.comps[name]
 		if !so.IsArray() || strings.HasPrefix(name, "G$") {
+			continue
+		}
+		if all && !strings.HasPrefix(name, "GF$") {
+			// "modifies heap": only ghost fields keep a frame (callers keep them across the call)
 			continue
 		}
 		var mine []modTarget
@@ -795,9 +797,17 @@ func (x *Exec) effectsOfInstr(fr *Frame, ins ssa.Instruction, eff *loopEffects, 
 			eff.add(x.elemTargets(sl.Elem(), nil))
 		}
 	case *ssa.Send:
-		eff.comps["GF$chan$sent"] = ArrSort(SInt, SInt)
-		eff.comps["GF$chan$last%tag"] = ArrSort(SInt, SInt)
-		eff.comps["GF$chan$last%val"] = ArrSort(SInt, SInt)
+		for _, mt := range chanLogTargets() {
+			eff.comps[mt.Comp] = mt.So
+		}
+	case *ssa.Select:
+		for _, sc := range t.States {
+			if sc.Dir == types.SendOnly {
+				for _, mt := range chanLogTargets() {
+					eff.comps[mt.Comp] = mt.So
+				}
+			}
+		}
 	case *ssa.Next:
 		if top && fr != nil {
 			rng := t.Iter.(*ssa.Range)
@@ -805,6 +815,9 @@ func (x *Exec) effectsOfInstr(fr *Frame, ins ssa.Instruction, eff *loopEffects, 
 			eff.locals[fmt.Sprintf("f%d.range.%s.pos", fr.id, rng.Name())] = true
 		}
 	case ssa.CallInstruction:
+		if x.counting {
+			eff.ghosts = true
+		}
 		x.effectsOfCall(fr, t, eff, visited, top)
 	}
 }
